@@ -159,7 +159,7 @@ def check_map(grid, gspec, be, bname, info, name, opts, case, res, rng, hole, an
 
     def one(data, label, complex_=False):
         nonlocal nonzero
-        data = stencils.admissible_project(gspec, info.rank_in, data)
+        data = stencils.admissible_project(gspec, info.rank_in, data, name, opts)
         want = stencils.apply_model(gspec, name, opts, data)
         tol = budget(gspec, name, opts, data)
         try:
@@ -205,9 +205,9 @@ def check_map(grid, gspec, be, bname, info, name, opts, case, res, rng, hole, an
             data = np.zeros(shape_in)
             data.flat[int(flat)] = 1.0
             idx = np.unravel_index(int(flat), shape_in)
-            if not np.array_equal(stencils.admissible_project(gspec, info.rank_in, data), data):
+            if not np.array_equal(stencils.admissible_project(gspec, info.rank_in, data, name, opts), data):
                 # impulse outside the admissible subspace: use the projected pattern
-                data = stencils.admissible_project(gspec, info.rank_in, data) * 2
+                data = stencils.admissible_project(gspec, info.rank_in, data, name, opts) * 2
             res.count("impulses_applied")
             if not one(data, {"impulse_at": list(map(int, idx))}):
                 ok = False
